@@ -270,3 +270,28 @@ func (f Fact) LowerBound(key string) (int64, bool) {
 	}
 	return 0, false
 }
+
+// UpperBound returns the integer upper bound that the fact establishes for the expression key:
+// "e < c" gives c-1, "e <= c" gives c, "e == c" gives c.
+func (f Fact) UpperBound(key string) (int64, bool) {
+	var n int64
+	parse := func(s string) bool { _, err := fmt.Sscan(s, &n); return err == nil && fmt.Sprint(n) == s }
+	switch f.Op {
+	case "<":
+		if f.A == key && parse(f.B) {
+			return n - 1, true
+		}
+	case "<=":
+		if f.A == key && parse(f.B) {
+			return n, true
+		}
+	case "==":
+		if f.B == key && parse(f.A) {
+			return n, true
+		}
+		if f.A == key && parse(f.B) {
+			return n, true
+		}
+	}
+	return 0, false
+}
